@@ -56,6 +56,7 @@ type Obligation struct {
 	IsCover bool // must be SAT (vacuity guard)
 	ssaFn   *ssa.Function
 	Results []ResultTerm
+	Synth   bool
 }
 
 type ResultTerm struct {
@@ -155,6 +156,7 @@ func (e *Encoder) addObl(kind, text, pc, goal string) *Obligation {
 	o := &Obligation{Name: e.oblName(kind), Fn: e.fnName(), Kind: kind, Text: text, ctx: e.c, pos: e.c.pos(), pc: pc, goal: goal, Model: e.modelVars, ssaFn: e.fn}
 	if e.fc != nil {
 		o.Props = e.fc.Props
+		o.Synth = e.fc.Synth
 	}
 	e.obls = append(e.obls, o)
 	return o
@@ -377,7 +379,7 @@ func (e *Encoder) store(st *State, loc string, t types.Type, v string) {
 	case *types.Struct:
 		sn := c.structSort(u)
 		for i := 0; i < u.NumFields(); i++ {
-			e.store(st, fmt.Sprintf("(lfield %s %d)", loc, i), u.Field(i).Type(), fmt.Sprintf("(%s_f%d %s)", sn, i, v))
+			e.store(st, c.lfield(loc, u, i), u.Field(i).Type(), fmt.Sprintf("(%s_f%d %s)", sn, i, v))
 		}
 		return
 	case *types.Array:
@@ -554,7 +556,7 @@ func rootAlloc(v ssa.Value) *ssa.Alloc {
 }
 
 // memKeysWritten conservatively lists the memory keys written in a set of blocks; all=true if unknown.
-func (e *Encoder) memKeysWritten(blocks map[*ssa.BasicBlock]bool) (keys map[string]types.Type, all bool) {
+func (e *Encoder) memKeysWritten(blocks map[*ssa.BasicBlock]bool, skip map[ssa.Instruction]bool) (keys map[string]types.Type, all bool) {
 	keys = map[string]types.Type{}
 	e.nonLocalKeys = map[string]bool{}
 	e.loopOuterAllocs = map[*ssa.Alloc]bool{}
@@ -588,6 +590,9 @@ func (e *Encoder) memKeysWritten(blocks map[*ssa.BasicBlock]bool) (keys map[stri
 	for b := range blocks {
 		for _, in := range b.Instrs {
 			local = false
+			if skip[in] {
+				continue // handled cell by cell (enc_loopfx.go)
+			}
 			switch in := in.(type) {
 			case *ssa.Store:
 				local = rootedAtAlloc(in.Addr)
@@ -626,6 +631,9 @@ func (e *Encoder) memKeysWritten(blocks map[*ssa.BasicBlock]bool) (keys map[stri
 						continue
 					}
 					if e.prog.stdlibPure(callee) {
+						continue
+					}
+					if emptyBody(callee) {
 						continue
 					}
 					if ts, ok := stdlibWrites(callee); ok {
